@@ -10,12 +10,14 @@ import (
 	"fmt"
 	"io"
 	"log/slog"
+	"math"
 	"net/http"
 	"net/http/httptest"
 	"strconv"
 	"strings"
 	"sync"
 	"sync/atomic"
+	"syscall"
 	"time"
 
 	"rivaas.dev/app"
@@ -201,6 +203,8 @@ type ReqState struct {
 	Hook func(c *router.Context, st *ReqState, hid int, a Act)
 	// App: the application the request is served by (nil in the router world)
 	App *app.App
+	// ac: the app context of the app-level position that is running (nil for router-level handlers)
+	ac *app.Context
 }
 
 // states of requests that travel through a real HTTP server (no context value survives the wire):
@@ -335,6 +339,10 @@ func StatusResolver(err error) int {
 	case errors.Is(err, http.ErrAbortHandler):
 		return http.StatusUnprocessableEntity
 	}
+	var typed interface{ HTTPStatus() int }
+	if errors.As(err, &typed) { // like the formatter's default: an error that declares its status keeps it
+		return typed.HTTPStatus()
+	}
 	return http.StatusInternalServerError
 }
 
@@ -394,12 +402,34 @@ func runActs(c *router.Context, st *ReqState, hid int, acts []Act) {
 		case "A":
 			c.Abort()
 		case "C":
-			st.Cancel()
+			if a.V == 1 && st.ac != nil {
+				// the cancellable scope is installed by this position itself, which also binds the body (Bind swaps
+				// in a request copy of its own); then the scope is cancelled: c.Request.Context() stays cancelled
+				ctx, cancel := context.WithCancel(c.Request.Context())
+				c.Request = c.Request.WithContext(ctx)
+				var in struct {
+					Name string `json:"name"`
+				}
+				_ = st.ac.Bind(&in)
+				cancel()
+			} else {
+				st.Cancel()
+			}
 		case "W":
 			st.Wrote = true
 			_ = c.JSON(StatusOf(hid), map[string]int{"h": hid})
 		case "R":
 			return
+		case "F":
+			// refuse the request the way app handlers do: c.Fail(err) = Abort + error response (router-level
+			// handlers: Abort + a response of their own). V = 1: the error's details cannot be encoded.
+			st.Wrote = true
+			if st.ac != nil {
+				st.ac.Fail(failErr{status: StatusOf(hid), unencodable: a.V == 1})
+			} else {
+				c.Abort()
+				_ = c.JSON(StatusOf(hid), map[string]int{"h": hid})
+			}
 		case "P":
 			if a.V == WriterPanic {
 				if !st.Wrote {
@@ -456,7 +486,32 @@ func handle(c *router.Context, hid int) {
 func RH(hid int) router.HandlerFunc { return func(c *router.Context) { handle(c, hid) } }
 
 // AH is the app-level instrumented handler number hid.
-func AH(hid int) app.HandlerFunc { return func(c *app.Context) { handle(c.Context, hid) } }
+func AH(hid int) app.HandlerFunc {
+	return func(c *app.Context) {
+		if st := stateOf(c.Context); st != nil { // act F needs the app context of the position that is running
+			prev := st.ac
+			st.ac = c
+			defer func() { st.ac = prev }()
+		}
+		handle(c.Context, hid)
+	}
+}
+
+// failErr is what act F fails with: its status is the handler's status; its details cannot be encoded by
+// encoding/json when unencodable is set (Fail then answers with the status and the error text alone).
+type failErr struct {
+	status      int
+	unencodable bool
+}
+
+func (e failErr) Error() string   { return "request refused" }
+func (e failErr) HTTPStatus() int { return e.status }
+func (e failErr) Details() any {
+	if e.unencodable {
+		return map[string]any{"limit": math.NaN()}
+	}
+	return map[string]any{"limit": 3}
+}
 
 func rhs(hs []int) []router.HandlerFunc {
 	out := make([]router.HandlerFunc, len(hs))
@@ -523,6 +578,16 @@ const VersionHeader = "X-Api-Version"
 type World struct {
 	App     *app.App
 	Routers []*router.Router
+	// FailWrites: every body write reports an error after the bytes were taken (a connection that breaks);
+	// nobody aborted and the request context is alive, so the chain goes on as if the write had succeeded
+	FailWrites bool
+}
+
+type brokenPipe struct{ *httptest.ResponseRecorder }
+
+func (w brokenPipe) Write(p []byte) (int, error) {
+	n, _ := w.ResponseRecorder.Write(p)
+	return n, syscall.EPIPE
 }
 
 // Options of Build.
@@ -750,6 +815,9 @@ func ParseBody(b []byte) []int {
 			return out
 		}
 		switch {
+		case v["title"] != nil && v["status"] != nil: // an error document written by app.Context.Fail for handler status-210
+			f, _ := v["status"].(float64)
+			out = append(out, int(f)-210)
 		case v["h"] != nil:
 			f, _ := v["h"].(float64)
 			out = append(out, int(f))
@@ -773,11 +841,16 @@ func (w *World) ServeOn(h http.Handler, t Target, st *ReqState) Result {
 	defer cancel()
 	st.Cancel = cancel
 	st.App = w.App
-	req := httptest.NewRequest(http.MethodGet, SegPath(t.Path), nil).WithContext(ctx)
+	req := httptest.NewRequest(http.MethodGet, SegPath(t.Path), strings.NewReader(`{"name":"x"}`)).WithContext(ctx)
+	req.Header.Set("Content-Type", "application/json")
 	if t.Ver >= 0 {
 		req.Header.Set(VersionHeader, "v"+strconv.Itoa(t.Ver))
 	}
 	rec := httptest.NewRecorder()
+	var rw http.ResponseWriter = rec
+	if w.FailWrites {
+		rw = brokenPipe{rec}
+	}
 	res := Result{Escaped: -1}
 	func() {
 		defer func() {
@@ -785,7 +858,7 @@ func (w *World) ServeOn(h http.Handler, t Target, st *ReqState) Result {
 				res.Escaped = PanicIndex(p)
 			}
 		}()
-		h.ServeHTTP(rec, req)
+		h.ServeHTTP(rw, req)
 	}()
 	res.Trace = st.Log
 	res.Status = rec.Code
